@@ -27,7 +27,7 @@ EXHAUSTIVE = {}
 TRUSTED = ["Python object identity, hashing and set iteration order are NOT modelled; the claim for the implementation rests on the sampled label families and hash seeds"]
 ASSUMPTIONS = ["inner property modules build their graphs through graphs.to_*(g, case) so that _lab/_order take effect"]
 LEVEL_TEXT = ("Unbounded Coq theorems: the separation spec (and its executable oracle) commutes with every one-to-one renaming and depends on node/edge lists only as sets "
-              "(spec_equivariant_msep, spec_order_free_msep, oracle_*). For the implementation the property is decided by metamorphic correspondence: every sampled case of C01, C04-C12, C16-C19 "
+              "(spec_equivariant_msep, spec_order_free_msep, oracle_*), and so does the executable model of m_separated on C01's whole domain (model_equivariant_msep, a corollary of C01's unbounded correctness theorem). For the implementation the property is decided by metamorphic correspondence: every sampled case of C01, C04-C12, C16-C19 "
               "is re-run under 6 label families x insertion orders x hash seeds and must still agree with the proved model of that property.")
 LEVEL_NOTE = ("CPython identity/interning/hash order cannot be expressed in Gallina; C15 is therefore a correspondence claim over sampled label families, not a theorem about the code. "
               "Trusted: the inner modules' builders, harness/c15_worker.py.")
